@@ -12,6 +12,7 @@ From PrefVerif Require Model.Scoring Model.Bucklin Model.Pairwise.
 From PrefVerif Require Import Lib.Perms Lib.Contig.
 From PrefVerif Require Model.SP Model.SC Model.Tree Model.Euclid Model.C1P Model.Approval.
 From PrefVerif Require Proofs.SP Proofs.SC Proofs.Tree Proofs.Euclid Proofs.C1P Proofs.Approval.
+From PrefVerif Require Model.SCAlgo Model.TreeAlgo Proofs.SCAlgo Proofs.TreeAlgo Proofs.Pairwise.
 Import ListNotations.
 Local Close Scope Qc_scope.
 Local Close Scope Q_scope.
@@ -85,7 +86,7 @@ Proof. rewrite existsb_map'. apply existsb_ext'. intros x. apply eqb_f. Qed.
 (* ============================================================================================================ *)
 (* Part 1a — Model/Scoring.v (C06)                                                                              *)
 Section ScoreTables.
-  Import Scoring.
+  Import PrefVerif.Model.Scoring.
   Context {S : Type}.
   Variables (add : S -> S -> S) (zero : S) (leb : S -> S -> bool).
 
@@ -114,7 +115,7 @@ Section ScoreTables.
   Qed.
 End ScoreTables.
 
-Import Scoring.
+Import PrefVerif.Model.Scoring.
 
 Lemma hd_map_order o : hd [] (map_order f o) = map f (hd [] o).
 Proof. destruct o; reflexivity. Qed.
@@ -322,7 +323,7 @@ Qed.
 
 (* ============================================================================================================ *)
 (* Part 1b — Model/Bucklin.v (C14)                                                                              *)
-Import Bucklin.
+Import PrefVerif.Model.Bucklin.
 
 Lemma tbl_get_relabel t a : tbl_get (map_keys f t) (f a) = tbl_get t a.
 Proof.
@@ -376,7 +377,7 @@ Qed.
 (* ============================================================================================================ *)
 (* Part 1c — Model/Pairwise.v (C07)                                                                             *)
 Section PairwiseTables.
-Import Pairwise.
+Import PrefVerif.Model.Pairwise.
 
 Lemma pw_alts_relabel i : Pairwise.alts (relabel_pw_inst f i) = map f (Pairwise.alts i).
 Proof. unfold Pairwise.alts. simpl. apply map_keys_fst. Qed.
@@ -1101,3 +1102,63 @@ Proof.
   intros H. apply bool_eq_iff'. rewrite !Proofs.Approval.part2_decide_correct. split; apply D; [exact H|now apply Permutation_sym].
 Qed.
 End Reorder.
+
+(* ============================================================================================================ *)
+(* Part 4 — consequences                                                                                        *)
+
+(* "maps winner sets through the bijection", as sets: from the exact equivariance  r' = rmap (map f) r *)
+Lemma winners_as_sets (f : N -> N) (r r' : result (list N)) :
+  (forall x y, f x = f y -> x = y) -> r' = rmap (map f) r ->
+  (forall e, r = Err e -> r' = Err e) /\
+  (forall w, r = Ok w -> exists w', r' = Ok w' /\ (forall a, In a w <-> In (f a) w') /\
+                                    (forall b, In b w' -> exists a, b = f a /\ In a w)).
+Proof.
+  intros Hf ->. split.
+  - intros e ->. reflexivity.
+  - intros w ->. exists (map f w). split; [reflexivity|]. split.
+    + intros a. rewrite in_map_iff. split; [intros H; now exists a|]. intros (x & E & Hx). apply Hf in E. now subst.
+    + intros b Hb. apply in_map_iff in Hb. destruct Hb as (a & <- & Ha). now exists a.
+Qed.
+
+(* has_condorcet only depends on the multiset of voters *)
+Theorem has_condorcet_regroup i i' w :
+  Pairwise.wf_inst i -> Pairwise.wf_inst i' -> Pairwise.alts i = Pairwise.alts i' ->
+  Pairwise.data_type i = Pairwise.data_type i' ->
+  Permutation (Pairwise.expand (Pairwise.mult i)) (Pairwise.expand (Pairwise.mult i')) ->
+  Pairwise.has_condorcet i w = Pairwise.has_condorcet i' w.
+Proof.
+  intros H H' Ea Ed Hp. destruct (Proofs.Pairwise.tables_regroup i i' H H' Ea Hp) as (_ & _ & E).
+  unfold Pairwise.has_condorcet. now rewrite E, Ed.
+Qed.
+
+(* the mirror of is_single_crossing (Model/SCAlgo.v) answers the same on every storage order / labelling *)
+Theorem sc_algo_verdict_perm alts alts' orders orders' :
+  SC.wf_profile alts orders -> SC.wf_profile alts' orders' ->
+  Permutation alts alts' -> Permutation orders orders' ->
+  SCAlgo.sc_algo_verdict alts orders = SCAlgo.sc_algo_verdict alts' orders'.
+Proof.
+  intros W W' Ha Ho. rewrite !Proofs.SCAlgo.sc_algo_verdict_correct by assumption. now apply Proofs.SC.sc_decide_perm.
+Qed.
+
+Theorem sc_algo_verdict_relabel (f : N -> N) alts orders : (forall x y, f x = f y -> x = y) ->
+  SC.wf_profile alts orders -> SC.wf_profile (map f alts) (map (map f) orders) ->
+  SCAlgo.sc_algo_verdict (map f alts) (map (map f) orders) = SCAlgo.sc_algo_verdict alts orders.
+Proof.
+  intros Hf W W'. rewrite !Proofs.SCAlgo.sc_algo_verdict_correct by assumption. now apply Proofs.SC.sc_decide_relabel.
+Qed.
+
+(* the mirror of is_single_peaked_on_tree (Model/TreeAlgo.v): whatever the set-iteration choices, the storage order
+   of the ballots and of the alternatives, the verdict is the same *)
+Theorem trick_verdict_invariant alts alts' p p' enumL pickB enumL' pickB' b E b' E' :
+  Proofs.TreeAlgo.profile_on alts p -> Proofs.TreeAlgo.profile_on alts' p' ->
+  Proofs.TreeAlgo.admissible enumL pickB -> Proofs.TreeAlgo.admissible enumL' pickB' ->
+  Permutation alts alts' -> Permutation p p' ->
+  TreeAlgo.trick enumL pickB alts p = Ok (b, E) -> TreeAlgo.trick enumL' pickB' alts' p' = Ok (b', E') -> b = b'.
+Proof.
+  intros Hpo Hpo' Had Had' Ha Hp H1 H2.
+  destruct (Proofs.TreeAlgo.trick_decides alts p enumL pickB Hpo Had) as (E1 & HE1 & _).
+  destruct (Proofs.TreeAlgo.trick_decides alts' p' enumL' pickB' Hpo' Had') as (E2 & HE2 & _).
+  rewrite H1 in HE1. rewrite H2 in HE2. injection HE1 as -> _. injection HE2 as -> _.
+  rewrite (Proofs.Tree.spt_decide_profile_perm alts p p' Hp).
+  apply Proofs.Tree.spt_decide_alts_perm; [apply Hpo|exact Ha].
+Qed.
